@@ -144,7 +144,7 @@ pub fn scenario(p: &GenParams) -> BoxedStrategy<Scenario> {
         .prop_map(move |((seed, peers, specs, max_pred, sparse, desync, predictor, wide), (link, (notify, timeout), ticks, rops, sched, fps))| {
             let np = peers.len();
             let mut sc = Scenario::basic(seed, np);
-            sc.peers = peers.iter().map(|(l, d, s)| PeerSpec { locals: *l, delay: *d, slow: *s, use_wait: false }).collect();
+            sc.peers = peers.iter().map(|(l, d, s)| PeerSpec { locals: *l, delay: *d, slow: *s, use_wait: false, no_checksum: false }).collect();
             sc.specs = specs
                 .iter()
                 .map(|(h, mb, cu, slow, w)| SpecSpec {
@@ -175,6 +175,10 @@ pub fn scenario(p: &GenParams) -> BoxedStrategy<Scenario> {
             // a third of the games sample their controller per tick: a stalled frame is resubmitted with other values
             sc.resubmit_varies = (seed >> 44) % 3 == 0;
             sc.double_submit = (seed >> 40) % 4 == 0;
+            // one game in eight saves without checksums on its first peer (asymmetric use of desync detection)
+            if (seed >> 36) % 8 == 0 {
+                sc.peers[0].no_checksum = true;
+            }
             // ops
             let mut outages = 0;
             let mut pauses = 0;
